@@ -153,6 +153,9 @@ func BuildAttributeList(attributes ...any) (string, error) {
 			}
 		case map[string]string:
 			for key, value := range attribute {
+				if value == "" {
+					continue
+				}
 				attributeList = append(attributeList, html.EscapeString(key)+`="`+html.EscapeString(value)+`"`)
 			}
 		default:
